@@ -5,6 +5,9 @@
 package worlds
 
 import (
+	"runtime/debug"
+
+	"github.com/gethiox/HIDI/internal/pkg/logger"
 	"encoding/json"
 	"fmt"
 	"os"
@@ -198,6 +201,11 @@ func WorkerMain(t *testing.T) {
 		fmt.Fprintln(os.Stderr, "worker: bad job:", err)
 		os.Exit(2)
 	}
+	// worlds that run outside a bubble log through the package-level channel: keep it drained
+	go func(c chan []byte) {
+		for range c {
+		}
+	}(logger.Messages)
 	fn := worldTable[job.World]
 	if fn == nil {
 		fmt.Fprintln(os.Stderr, "worker: unknown world", job.World)
@@ -479,3 +487,5 @@ func withRaceCheck(fn worldFn, out *Output) worldFn {
 		return ro
 	}
 }
+
+func debugStack() []byte { return debug.Stack() }
